@@ -114,6 +114,11 @@ CALLS['mef.fit_beads_autofluorescence'] = (lambda s, a: FlowCal.mef.fit_beads_au
 CALLS['mef.get_transform_fxn'] = (lambda s, a: FlowCal.mef.get_transform_fxn(
     a['beads'], a['mef_values'], a['mef_channels'], clustering_fxn=a['clustering_fxn'], clustering_params=a['cparams'],
     statistic_params=a['sparams'], selection_fxn=None, selection_params=a['selparams'], fitting_params=a['fparams'], full_output=True).mef_channels, True, False)
+CALLS['mef.get_transform_fxn(full)'] = (lambda s, a: FlowCal.mef.get_transform_fxn(
+    a['beads'], a['mef_values'], a['mef_channels'], clustering_fxn=a['clustering_fxn'], clustering_params=a['cparams'],
+    statistic_params=a['sparams'], selection_fxn=None, selection_params=a['selparams'], fitting_params=a['fparams'], full_output=True), True, False)
+CALLS['mef.get_transform_fxn(function)'] = (lambda s, a: FlowCal.mef.get_transform_fxn(
+    a['beads'], a['mef_values'], a['mef_channels'], clustering_fxn=a['clustering_fxn'], selection_fxn=None), True, False)
 CALLS['plot._LogicleTransform'] = (lambda s, a: (lambda t: (t.T, t.M, t.W))(FlowCal.plot._LogicleTransform(data=s, channel=s.channels[2])), True, False)
 CALLS['plot._LogicleTransform(list)'] = (lambda s, a: (lambda t: (t.T, t.M, t.W))(FlowCal.plot._LogicleTransform(data=a['pops'], channel=0)), True, False)
 
@@ -231,7 +236,7 @@ class Prop(common.PropertyCheck):
                     op['cols'] = sorted(rng.sample(range(2), rng.randrange(1, 3))) if t == 'slice_adv' else [0, 1]
                     op['how'] = rng.choice(['names', 'pos'])
                 if t == 'fresh':
-                    op['how'] = rng.choice(['copy', 'to_rfi', 'to_mef', 'start_end', 'high_low', 'mask', 'deepcopy', 'astype'])
+                    op['how'] = rng.choice(['copy', 'to_rfi', 'to_mef', 'start_end', 'high_low', 'mask', 'deepcopy', 'astype', 'transform', 'transform'])
                 ops.append(op)
                 if t != 'query':
                     nobj += 1
@@ -309,6 +314,29 @@ class Prop(common.PropertyCheck):
             leaves(res, rarrs)
             leaves([v for k, v in a.items() if not callable(v)], aarrs)
             out['share_arg_array'] = bool(any(np.shares_memory(x, y) for x in rarrs for y in aarrs if x.size and y.size))
+            # mutable containers (lists, dicts) reachable from the result must not be the caller's own objects
+
+            def containers(x, acc, depth=0):
+                if isinstance(x, (list, dict)):
+                    acc.add(id(x))
+                if depth < 4:
+                    if isinstance(x, (list, tuple)):
+                        for e in x:
+                            containers(e, acc, depth + 1)
+                    elif isinstance(x, dict):
+                        for e in x.values():
+                            containers(e, acc, depth + 1)
+                    elif hasattr(x, 'func') and hasattr(x, 'keywords'):          # functools.partial
+                        containers(list(x.args), acc, depth + 1)
+                        containers(x.keywords, acc, depth + 1)
+                    elif hasattr(x, '_asdict'):
+                        containers(list(x), acc, depth + 1)
+            rc, ac = set(), set()
+            containers(res, rc)
+            for k, v in a.items():
+                if not callable(v):
+                    containers(v, ac)
+            out['share_arg_container'] = bool(rc & ac)
             out['share_meta'] = share_meta
             out['share_buf'] = share_buf
             out['shares_allowed'] = shares
@@ -422,6 +450,9 @@ class Prop(common.PropertyCheck):
                         r = FlowCal.transform.to_rfi(o, channels=[0], amplification_type=[(0, 0)])
                     elif how == 'to_mef':
                         r = FlowCal.transform.to_mef(o, [1], [lambda x: x * 2.0], [1])
+                    elif how == 'transform':
+                        # the generic transform stores the range of the converted channels as arrays, not as lists
+                        r = FlowCal.transform.transform(o, [0, 1], lambda x: np.sqrt(np.abs(np.asarray(x, dtype=float))))
                     elif how == 'start_end':
                         r = FlowCal.gate.start_end(o, 1, 1)
                     elif how == 'high_low':
@@ -442,7 +473,8 @@ class Prop(common.PropertyCheck):
                     graph['buf'].append([i, j])
                 ri = {id(x) for x in objs[i]._range} | {id(objs[i]._range)}
                 rj = {id(x) for x in objs[j]._range} | {id(objs[j]._range)}
-                if ri & rj:
+                arr_shared = any(isinstance(x, np.ndarray) and isinstance(y, np.ndarray) and np.shares_memory(x, y) for x in objs[i]._range for y in objs[j]._range)
+                if (ri & rj) or arr_shared:
                     graph['ranges'].append([i, j])
                 if objs[i]._text is objs[j]._text or objs[i]._analysis is objs[j]._analysis:
                     graph['text'].append([i, j])
@@ -471,6 +503,8 @@ class Prop(common.PropertyCheck):
                 return '%s changed caller-owned arguments %s (%s data)' % (c, impl['changed_args'], case['data'])
             if impl['share_meta']:
                 return 'result of %s shares metadata containers with its input' % c
+            if impl.get('share_arg_container'):
+                return 'the result of %s holds a list / dictionary that is the caller\'s own object (later changes by the caller change the result)' % c
             if impl.get('share_arg_array') and not impl['shares_allowed']:
                 return 'an array inside the result of %s is (a view of) an array the caller passed in' % c
             if impl['share_buf'] and not impl['shares_allowed']:
